@@ -183,7 +183,9 @@ func IsDomainName(s string) (labels int, ok bool) {
 	// XXX: The logic in this function was copied from packDomainName and
 	// should be kept in sync with that function.
 
-	const lenmsg = 256
+	// The label octets (each label plus its length octet) must leave room
+	// for the terminating root label within the 255 octet wire-format limit.
+	const lenmsg = maxDomainNameWireOctets - 1
 
 	if len(s) == 0 { // Ok, for instance when dealing with update RR without any rdata.
 		return 0, false
